@@ -110,11 +110,9 @@ def main(chk, a, tier, seed):
             th = threading.Thread(target=race_thread)
             th.start()
         outs, bad = chk.launch(binp, jobs, work, 6 * 3600 if tier == "thorough" else 1500)
-        src, so = san.wait(), san.stdout.read()
+        chk.sanity_verdict(san, sc)
         if th is not None:
             th.join()
-        if src != 0:
-            chk.die("translation sanity failed: the instrumented copy does not pass the repository's own fast tests\n" + so[-3000:])
         if bad:
             chk.die("engine process trouble: %s" % "\n".join("proc %d rc=%s\n%s" % b for b in bad))
         extra_cov = {}
